@@ -53,7 +53,7 @@ def case_strategy(draw):
         zeros = [[0, draw(st.integers(1, 20))], [n - draw(st.integers(1, 20)), 20]]
     elif zp == 'all':
         zeros = [[0, n]]
-    og = draw(st.sampled_from(['wider', 'shift', 'same', 'narrower', 'coarser', 'wider', 'disjoint']))
+    og = draw(st.sampled_from(['wider', 'shift', 'same', 'narrower', 'coarser', 'wider', 'disjoint', 'finer']))
     return dict(nexp=nexp, n=n, c0=c0, c1=c1, fam=fam, fp=[draw(uf) for _ in range(4)], zeros=zeros, zpattern=zp,
                 offsets=[0.0] + [0.5 * (1 + draw(uf)) * 0.98 + 0.01 for _ in range(nexp - 1)],
                 og=og, frac=draw(st.sampled_from([0.5, 0.25, 0.01, 0.99, 0.73])), left=draw(st.integers(1, 40)), right=draw(st.integers(1, 40)),
@@ -106,6 +106,10 @@ def build(case):
         nl = c0 + c1 * (np.arange(case['left'], n - case['right'], dtype='f8') + f)
     elif og == 'coarser':
         nl = c0 + 2 * c1 * np.arange(n // 2, dtype='f8') + c1 * f
+    elif og == 'finer':
+        # two to three output pixels per input pixel over the middle of the data and a little beyond one end
+        m = 2 + (case['left'] % 2)
+        nl = c0 + (c1 / m) * (np.arange(m * (n // 3), m * n + 12, dtype='f8') + f)
     else:
         nl = c0 + c1 * (n + 50 + np.arange(60, dtype='f8'))
     if nexp == 1:
